@@ -143,6 +143,20 @@ def main(argv=None):
                 todo.append((0 if c["facet"] not in seen_f else 1, i, c))
                 seen_f.add(c["facet"])
     todo.sort(key=lambda x: x[0])
+    # the budget is shared fairly between the groups of obligations (second path component of the id), so that one noisy
+    # group cannot use it up: round-robin over the groups, first candidates of a facet before further ones
+    from collections import OrderedDict, deque
+
+    groups_ = OrderedDict()
+    for item in todo:
+        groups_.setdefault((item[0], "/".join(item[1].split("/")[:2])), deque()).append(item)
+    todo = []
+    while groups_:
+        for g in list(groups_):
+            todo.append(groups_[g].popleft())
+            if not groups_[g]:
+                del groups_[g]
+    todo.sort(key=lambda x: x[0])  # (stable: keeps the interleaving inside each priority class)
     cap = int(os.environ.get("VERIF_MAX_REPLAYS", "150"))
     allowed, kept, skipped = set(), [], 0
     for _pr, i, c in todo:  # the budget counts distinct (obligation, model) pairs: one replay decides all candidates sharing them
